@@ -22,7 +22,21 @@ def _fs_units():
     return units
 
 
+def _bs_units():
+    units = []
+    first = True
+    for blk in ("uint8_t", "uint16_t", "uint32_t", "uint64_t"):
+        for fa in (0, 1):
+            defs = ["BS_NAME=%s_%s" % (blk.replace("_t", ""), "failalloc" if fa else "stdalloc"), "BS_BLOCK=" + blk, "BS_FAILALLOC=%d" % fa]
+            if first:
+                defs.append("BS_MAIN")
+                first = False
+            units.append(dict(src="bitset.cpp", defs=defs))
+    return units
+
+
 HARNESSES = {
+    "bitset": dict(units=_bs_units()),
     "fstring": dict(units=_fs_units()),
     "sysenv": dict(units=[dict(src="sysenv.cpp")], ldflags=["-Wl,--wrap=readlink"]),
 }
@@ -110,6 +124,30 @@ PROPS["C14"] = dict(
     components=_FS_COMPONENTS, assumptions=_FS_ASSUME + ["std::hash<xbasic_fixed_string<char16_t>> hashes size() bytes, i.e. half the characters; that is a deterministic function of size() and the characters, so only cross-history equality is required for char16_t"],
 )
 
+PROPS["C03"] = dict(
+    level="exploration",
+    batches=dict(
+        quick=[dict(harness="bitset", build="san", runs=150000, wall_cap=600)],
+        thorough=[dict(harness="bitset", build="san", runs=1000000, wall_cap=2400),
+                  dict(harness="bitset", build="plain", runs=5000000, offset=1000000, wall_cap=2400),
+                  dict(harness="bitset", build="plain", runs=300, offset=6000000, valgrind=True, workers=8, wall_cap=1200)],
+    ),
+    rule=("a case is one seeded history (1-40 operations) over three owning bitsets and two view handles onto two caller-owned block arrays (dirty contents, guard blocks on both sides) "
+          "of one block type x allocator configuration, each with a std::vector<bool> model; an owner actor also writes viewed bits directly. Sizes are biased to 0, w-1, w, w+1, k*w, k*w+r; shift amounts to 0, <w, w, k*w, k*w+r, >=size. "
+          "After every step every bitset and view is compared with its model through operator[], const/non-const/reverse iteration, count/any/all/none, block_count, the raw blocks read through data() "
+          "(so unused bits must be zero), == against a freshly built equal bitset and != against one differing in one bit; caller memory outside the viewed blocks must be untouched. "
+          "Non-trivial: at least two state-changing steps and, when the plan attaches allocation failures, at least one delivered. Distinct: distinct run digests."),
+    probes=["grow", "grow_with_true_across_partial_block", "resize_to_zero", "whole_block_shift", "shift_ge_size", "whole_bitset_op_on_empty", "at_in_slack_of_last_block",
+            "owner_write_behind_view", "view_constructed_over_dirty_memory", "view_handle_copied", "write_through_reverse_iterator", "compared_equal",
+            "recovered_after_allocation_failure", "allocation_failure_in_resize", "allocation_failure_in_push_back"],
+    components=dict(real=["include/xtl/xdynamic_bitset.hpp (xdynamic_bitset with std::allocator and a custom allocator, xdynamic_bitset_view, xbitset_reference, xbitset_iterator)", "include/xtl/xspan_impl.hpp (as the view's storage)"],
+                    stub=["std::vector<bool> reference model", "FailingAllocator (k-th allocation of a step fails)", "caller-owned block arrays with guard blocks and seeded dirty contents", "owner actor writing viewed memory directly"]),
+    assumptions=["copying or assigning a view copies the handle; view.resize(n) is legal only for n == size() and throws otherwise (as the code defines them)",
+                 "moved-from bitsets are unspecified and are given a definite value again inside the same step",
+                 "&=, |=, ^= and the binary operators are only applied to operands of equal size; set/reset/flip(pos) only with pos < size()",
+                 "the property does not speak about allocation failure: after a delivered bad_alloc the only requirement kept is that the object can be assigned to and destroyed; its value is then re-established by the harness"],
+)
+
 PENDING = "claimed in DESIGN.md section 4 but its harness is not built yet in this tree; listed here until the check exists"
 NOT_APPLICABLE = {
     "C04": "pure function of the operands of one call (presence flags and values); no history, fault position, schedule or environment to simulate (DESIGN.md 5)",
@@ -138,6 +176,12 @@ MANIFEST_TEXT = {
         design_ref="4.2",
         note="sampled; an exception that is rejected half-way is xtl's analogue of a crash point; when both conditions apply either exception is accepted",
         technique="deterministic simulation with fault injection: rejected operations as crash points, failure-atomicity oracle, red-zone containment",
+    ),
+    "C03": dict(
+        text="seeded histories over every operation of xdynamic_bitset (4 block types, std and custom allocator) and xdynamic_bitset_view (over dirty caller memory with guard blocks, also written by an owner actor), compared after every step with std::vector<bool> through every access path including the raw blocks (unused bits zero), with at(i) required to throw exactly for i >= size()",
+        design_ref="4.3",
+        note="sampled histories; allocation failures are injected but only object usability is required after them because the property does not mention them",
+        technique="deterministic simulation: seeded operation histories with several handles on shared memory against a reference model, allocator fault injection, dirty caller memory",
     ),
     "C14": dict(
         text="hash coherence across simulated histories: std::hash of every fixed string equals the reference MurmurHash64A of its characters after every step, equal contents reached by different histories (different stale bytes), in different layouts and capacities hash equally; the byte hashes are additionally evaluated on the buffers the simulation produces at every alignment in exact-size blocks against an independent reference (that half is evaluation of a pure function on simulated states and is reported under its own counter)",
